@@ -44,7 +44,7 @@ ASSUMPTIONS = [
     "a case running longer than the per-case alarm (quick 30 s, thorough 180 s, corpus files in the thorough tier 900 s) is discarded and counted; termination is C13's subject",
     "an attribute value that is a container (tuple/list/dict) is reported (clause '0:attribute-value-not-storable'): the loader cannot write a table with such a row and leaves frontend/gir.bundle* empty for the whole project (reproduced through the CLI)",
     "module state that lian keeps between files (the mutable default lists of common_parser.Parser.parse) is emptied before every case, never inside a multi-file case",
-    "crash signatures: (class, language, exception type, innermost lian function that is not a generic common_parser helper); class = crash (unmodified corpus/generated/hand-written text without syntax error: listed exactly, never wildcarded) | crash-clean-mutant (mutated text that tree-sitter still parses without error) | crash-broken-input (text with syntax errors); for the two mutant classes known_findings.d/C03.json lists every bucket met in the saturation runs and, per frontend where the class was observed, one wildcard entry for further handlers of the same class (their hits and signatures are in the evidence)",
+    "crash signatures: (class, language, exception type, innermost lian function that is not a generic common_parser helper); class = crash (unmodified corpus/generated/hand-written text without syntax error: listed exactly, never wildcarded) | crash-clean-mutant (mutated text that tree-sitter still parses without error) | crash-broken-input (text with syntax errors); since lian's fix db0b574 a frontend exception on one file yields no GIR for that file (a valid outcome), so no crash bucket is expected any more; the buckets met before the repair are listed as fixed entries with their replays and any crash that escapes again is a VIOLATION",
 ]
 
 MAX_REPORTED = 10
@@ -192,9 +192,10 @@ def _crash_discrepancy(data, lang, exc, origin="mutant"):
                           trees, typically comments or parentheses in places no handler expects);
       crash-broken-input  a text with syntax errors: the handler trusts a child that tree-sitter leaves out of
                           ERROR/MISSING sub-trees.
-    The first class is finite (corpus + templates) and listed exactly; the two others have a long tail of rarely
-    reached handlers (about one new bucket per 300 000 mutants after 1.5 million), so known_findings.d lists every
-    bucket met so far AND one wildcard entry per frontend and class."""
+    The first class is finite (corpus + templates); the two others had a long tail of rarely reached handlers (about
+    one new bucket per 300 000 mutants after 1.5 million).  Since lian's repair db0b574 (a frontend exception on one
+    file yields no GIR for that file) none of them escapes any more; known_findings.json keeps the buckets met before
+    the repair as fixed entries, without wildcards."""
     s = W.crash_signature(lang, exc)
     if s[-1] == "?":
         return None
